@@ -1,6 +1,6 @@
 """C13 configuration for ./check (see checks/propcfg.py for the keys)."""
 CFG = {
-    "modules": ["VaxisModel.Props.C13", "VaxisModel.Props.C13Body", "VaxisModel.Props.C13Ext"],
+    "modules": ["VaxisModel.Props.C13", "VaxisModel.Props.C13Body", "VaxisModel.Props.C13Ext", "VaxisModel.Props.C13Shift"],
     "extractors": ["C09", "C13"],
     "drivers": ["C13"],
     "trivial_prefix": ("-|-|", "-|-"),
@@ -19,15 +19,20 @@ CFG = {
             "Non-trivial = something is written towards the child; distinct by op line.",
     "trusted_base": ["unicode.IsLower etc. are parameters of the model (structure Uni)",
                      "bytes -> sequences is the real ansi parser (C02); a lone ESC is resolved as the escape time-out does (C08)",
-                     "decimal rendering of fmt.Sprintf(\"%d\") and UTF-8 encoding of %c / WriteRune are modelled at the code-point level"],
+                     "decimal rendering of fmt.Sprintf(\"%d\") and UTF-8 encoding of %c / WriteRune are modelled at the code-point level",
+                     "the Go-body interpreter Model/GoInterp.lean and the go/ast translator extract/cmd/C09/gobody (validated against the implementation on every case)"],
     "level_text": "Forwarded keys/paste/mouse: Props/C13 theorems proved over the model of widgets/term/key.go, mouse.go and the "
-                  "forwarding arms of Update, tied to the source by Gen/TermKeys.lean, Gen/Keys.lean, Gen/Mouse.lean and by correspondence.",
+                  "forwarding arms of Update, tied to the source by Gen/TermKeys.lean, Gen/Keys.lean, Gen/Mouse.lean (tables), Gen/TermBody.lean (the three function bodies as "
+                  "decision-structure terms, regenerated and interpreted; Props/C13Body proves interpreted body = model for all inputs) and by correspondence.",
     "level_note": "Proved: key_roundtrip (table part by kernel decide over the regenerated tables, all four key-mode combinations), "
                   "cursor_mode_selects, child_modes_conform (decset/decrst/DECKPAM/DECKPNM/RIS tables vs the standard meaning), mouse_roundtrip (all buttons of the API, all positions), mouse_gated, paste_gated; "
                   "C13Ext: text_forwarded, ctrl_char_total, alt_ctrl_letter_is_xterm, shift_/alt_shift_letter_roundtrip (any script, hypotheses on the unicode tables explicit and checked at run time), "
                   "forward_paste_items / paste_payload_intact (any payload, any interleaving of boundaries; BS excluded with a witness), mouse_legacy_total. "
                   "Outside the round-trip domain with the reason in Spec.XtermDomain: Ctrl+Alt+char and Alt+non-ASCII (host parser cannot read xterm's form; bytes pinned). "
-                  "Validated by correspondence only: the hand-transcribed bodies of encodeXterm / handleMouse / Update. "
+                  "Body tie (Props/C13Body): encodeXterm_body_eq_model, handleMouse_body_eq_model, update_body_eq_model - the bodies extracted from "
+                  "widgets/term on this run, executed by Model/GoInterp over the regenerated tables, equal the model for every key / mouse event / mode state / unicode oracle; "
+                  "the driver also runs them on every case. Validated by correspondence only: the meaning the interpreter gives to the Go statement subset "
+                  "(fmt.Sprintf %d/%c, bytes.Buffer, map index, switch) and the go/ast translator. "
                   "Modelled not verified: parser, unicode tables, pty write.",
     "assumptions": ["Key.Text and the strings written are valid UTF-8"],
     "timeout": 900,
